@@ -471,4 +471,37 @@ theorem dispatch_long_mi (c : Model.X86.Ctx) (row : Row) (m : Mem) (v : BitVec 6
         (if m.size == 4 then signExtendInt32 v else v) (min m.size 4) := by
   rcases hsz with hs | hs | hs | hs <;> simp [dispatch, henc, sig3, Op.kind, Op.rmSize, Op.immVal, hs, oLongForm]
 
+/-! ### `evex()` on a memory form of an EVEX-only instruction (no VEX flag in the instruction table): the prefix word already selects EVEX, the
+force bit is not part of the EVEX prefix - the option changes no byte, so every memory-form class theorem admits it for these instructions -/
+
+theorem vexEvexMPrefix_forcebit (c : Model.X86.Ctx) (x opcode options : BitVec 32) (m : Mem) (h : x &&& 0x80DF8110#32 ≠ 0#32) :
+    vexEvexMPrefix c (x ||| 0x10#32) opcode options m = vexEvexMPrefix c x opcode options m := by
+  have h1 : ((x ||| 0x10#32) &&& 0x80DF8110#32 != 0#32) = true := by
+    simp only [bne_iff_ne, ne_eq]; bv_decide
+  have h2 : (x &&& 0x80DF8110#32 != 0#32) = true := by simpa using h
+  have h3 : evexWord (x ||| 0x10#32) opcode = evexWord x opcode := by simp only [evexWord]; bv_decide
+  simp only [vexEvexMPrefix, h1, h2, h3, ↓reduceIte, if_true]
+
+theorem emitVexEvexM_evexopt_evexonly (c : Model.X86.Ctx) (opcode opReg : BitVec 32) (m : Mem) (imm : BitVec 64) (n : Nat)
+    (hvf : c.vexFlag = false) (hpe : c.preferEvex = false) :
+    emitVexEvexM c opcode oEvex opReg m imm n = emitVexEvexM c opcode 0#32 opReg m imm n := by
+  have e1 : extractLLMMMMM opcode oEvex = extractLLMMMMM opcode 0#32 ||| 0x10#32 := by simp only [extractLLMMMMM, oEvex]; bv_decide
+  have e3 := emitModSib_lowopt oEvex (by decide) c
+  have e2 : ∀ x, vexEvexMPrefix c x opcode oEvex m = vexEvexMPrefix c x opcode 0#32 m := by
+    intro x
+    have : ∀ x', vexPrep x' opcode oEvex = vexPrep x' opcode 0#32 := by intro x'; simp only [vexPrep, oEvex, oVex3]; bv_decide
+    simp only [vexEvexMPrefix, this]
+  unfold emitVexEvexM
+  simp only [e1, e2, e3, hpe, hvf, Bool.false_and, Bool.false_eq_true, ↓reduceIte, bind, Except.bind,
+    show (oEvex &&& (oZMask ||| oER ||| oSAE) != 0#32) = false from by decide,
+    show ((0#32 : BitVec 32) &&& (oZMask ||| oER ||| oSAE) != 0#32) = false from by decide]
+  generalize ha : (if m.indexType > rtLabel then BitVec.ofNat 32 m.indexId else 0#32) = rx
+  generalize hb : (if m.baseType > rtLabel then BitVec.ofNat 32 m.baseId else 0#32) = rb
+  generalize hc : (if (m.bcst != 0) = true then 1#32 else 0#32) = bb
+  have hx : (opReg <<< 4 &&& 0xF980#32 ||| rx <<< 3 &&& 0x40#32 ||| rx <<< 15 &&& 0x80000#32 ||| rb <<< 2 &&& 0x20#32 |||
+        (extractLLMMMMM opcode 0#32 ||| 0x10#32) ||| c.extraId <<< 16 ||| bb <<< 20 ||| 0x80000000#32) =
+      (opReg <<< 4 &&& 0xF980#32 ||| rx <<< 3 &&& 0x40#32 ||| rx <<< 15 &&& 0x80000#32 ||| rb <<< 2 &&& 0x20#32 |||
+        extractLLMMMMM opcode 0#32 ||| c.extraId <<< 16 ||| bb <<< 20 ||| 0x80000000#32) ||| 0x10#32 := by bv_decide
+  rw [hx, vexEvexMPrefix_forcebit _ _ _ _ _ (by bv_decide)]
+
 end AsmjitVerif.Props.C01
